@@ -201,6 +201,9 @@ def body(case, stats):
 
 
 def classify(bad, rid):
+    kf = runner.known_findings()
+    if kf.is_open('N1', ID) and 'with same name as class' in bad[0]:
+        return 'N1'
     return None
 
 
@@ -225,10 +228,20 @@ def regress(stats):
                                      'case': payload['case']})
 
 
+def n1_reproduction(stats):
+    if not runner.known_findings().is_open('N1', ID):
+        return
+    text = 'struct id\n{\n    bytes id<>;\n};\n'
+    bad = check_text('valid', None, Schema([]), text)
+    if bad and classify(bad, None) == 'N1':
+        stats.known_finding('N1', {'text': text})
+
+
 def run(tier, seed):
     t0 = time.time()
     stats = runner.run_workers(__name__, 'worker', seed, tier)
     regress(stats)
+    n1_reproduction(stats)
     return runner.finish(ID, tier, seed, LEVEL, RULE, stats, t0, ASSUME)
 
 
